@@ -1077,6 +1077,20 @@ class Engine(Interp):
             if not o.eq(arr):
                 self.oblige(f"loop-frame:{name}:heap:{k[0]}.{k[1]}", 'frame', o == arr, node)
 
+    def containers_at_iteration_start(self):
+        return {k: (id(v), bool(getattr(v, 'frozen', False))) for k, v in self.st.locals.items() if isinstance(v, (ListObj, DictObj))}
+
+    def check_no_container_escapes_across_iterations(self, alias0, node):
+        """Entity fields hold containers by value in this encoding, Python by reference.  A local container that was NOT
+        re-bound in this iteration (same object at its end as at its start) and was stored into an object field during it is
+        still reachable through the local in the next iteration: a mutation there would also change the object field, which
+        the encoding cannot see.  Such a loop body is outside the subset."""
+        for k, v in self.st.locals.items():
+            if isinstance(v, (ListObj, DictObj)) and k in alias0 and alias0[k][0] == id(v) and getattr(v, 'frozen', False) \
+                    and not alias0[k][1] and not getattr(v, 'iter_frozen', False):
+                raise OutOfSubset(f"the container `{k}` is stored into an object field inside a loop without being re-created in "
+                                  f"that iteration (aliasing across iterations is not modelled), line {getattr(node, 'lineno', '?')}")
+
     def cut_loop(self, s, spec):
         """while-loop cut at its invariant; spec.modifies may contain 'world' (everything reachable + heap + time)"""
         fi = self.fn_stack[-1]
@@ -1102,12 +1116,14 @@ class Engine(Interp):
             self.st.assume(hyp_of(cl))
         cond = self.cond(s.test)
         if self.branch(cond):
+            alias0 = self.containers_at_iteration_start()
             try:
                 self.exec_block(s.body)
             except ContinueSig:
                 pass
             except BreakSig:
                 return
+            self.check_no_container_escapes_across_iterations(alias0, s)
             c2 = self.loop_ctx(spec, pre_loop, {'pre': pre_loop})
             for nm, cl in spec.inv(c2):
                 self.oblige(f"loop-step:{name}:{nm}", 'loop-step', cl, s)
@@ -1235,12 +1251,14 @@ class Engine(Interp):
                 self.probe_value(ast.unparse(tgt), ev_)
             broke = False
             n_spawns0 = len(self.st.spawns)
+            alias0 = self.containers_at_iteration_start()
             try:
                 self.exec_block(s.body)
             except ContinueSig:
                 pass
             except BreakSig:
                 broke = True
+            self.check_no_container_escapes_across_iterations(alias0, s)
             if broke:
                 if kind != 'range':
                     it.frozen = was_frozen
